@@ -72,6 +72,20 @@ void extv (int64_t a) { logcall (6, a, 0, 0, 0); }
 /* store through a pointer given by MIR code (memory written by an external) */
 void extp (int64_t *p, int64_t v) { logcall (7, v, 0, 0, 0); *p = v ^ 0x5555; }
 
+/* two results in rax:rdx */
+typedef struct { int64_t a, b; } pair_t;
+pair_t extpair (int64_t a) {
+  pair_t p;
+  logcall (8, a, 0, 0, 0);
+  p.a = (int64_t) mix (8, (uint64_t) a); p.b = (int64_t) mix (9, (uint64_t) a);
+  return p;
+}
+/* reads and writes a long double local of the MIR code through its address */
+void extld (long double *p, int64_t a) {
+  int64_t lo; memcpy (&lo, p, 8); logcall (9, lo, a, 0, 0);
+  *p = *p * 0.5L + (long double) (a % 1000);
+}
+
 /* ---------------- crash containment ---------------- */
 static sigjmp_buf crash_env;
 static volatile int in_call;
@@ -107,6 +121,7 @@ static void load_all (eng_t *e, const char *text) {
   MIR_load_external (ctx, "ext2", ext2); MIR_load_external (ctx, "ext4", ext4);
   MIR_load_external (ctx, "extd", extd); MIR_load_external (ctx, "extv", extv);
   MIR_load_external (ctx, "extp", extp);
+  MIR_load_external (ctx, "extpair", extpair); MIR_load_external (ctx, "extld", extld);
   switch (e->kind) {
   case E_INTERP: case E_INTERPC: MIR_link (ctx, MIR_set_interp_interface, NULL); break;
   case E_GEN: MIR_gen_init (ctx); MIR_gen_set_optimize_level (ctx, e->level);
